@@ -48,8 +48,8 @@ from mpyc.sectypes import SecureObject  # noqa: E402
 
 ID = 'C31'
 LEVEL = 'exploration'
-CASE_TIMEOUT = 300
-RULE = ('generated histories (up to 10 steps quick / 16 thorough, list length <= 8 / 12) over 40 operation kinds of '
+CASE_TIMEOUT = 900
+RULE = ('generated histories (up to 10 steps quick / 16 thorough, list length <= 8 / 12) over 28 operations of '
         'seclist (get/set/del/insert/pop/s[i]+=v with public, secure-number, unit-vector and secindex indices; append, '
         'extend, +, reflected +, +=, *, reflected *, *=, remove, count, contains, find, index, sort(key, reverse), six '
         'comparisons, slices get/set/del, copy, reverse, clear, aliasing through a second list register) x element type '
@@ -69,8 +69,12 @@ ASSUMPTIONS = ['Python list semantics is the specification; ValueError of index/
                'compared as field embeddings, -1 as the field element -1']
 
 
+# F31a and F31b are fixed in /repo (12f56da, c73c57f): their input classes are generated freely again
+AVOID_KNOWN = False
+
+
 def budget(tier):
-    return dict(shards=16, examples=220 if tier == 'quick' else 3000)
+    return dict(shards=16, examples=220 if tier == 'quick' else 2000)
 
 
 # ------------------------------------------------------------------------------------------------
@@ -274,8 +278,6 @@ def plan(case):
             return list(tl), ('t',)
         _req(form in ('seclist', 'list', 'tuple'))
         vals = [rval(v) for v in o[1]]
-        if form == 'seclist':
-            _req(all(r[0] != 'pub' for r in vals) or True)
         return [v[1] for v in o[1]], (form, vals)
 
     steps = case['steps']
@@ -707,7 +709,6 @@ def _check_trace(pl, tr, no_async):
                 return f'{tag}: {nm} holds items that are not of the secure type', None
             if sh[3] != len(exp):
                 return f'{tag}: public length of {nm} is {sh[3]}, model has {len(exp)}', None
-        flat = [a for x in lists for a in x] + (r['bits'] or [])
         got = e['open']
         if got is None:
             return f'{tag}: non-secure object inside a list', None
@@ -718,7 +719,6 @@ def _check_trace(pl, tr, no_async):
                 return (f'{tag}: opened lists {got[:nl]} != model {expo[:nl]} '
                         f'(s then t; fixed point scaled by 2^{tt.f})'), None
             return f'{tag}: index object was modified by the operation: bits now {got[nl:]}, were {expo[nl:]}', None
-        del flat
     return None, None
 
 
@@ -805,6 +805,8 @@ def _run_history(case):
             err = f'run did not complete (first unfinished step {k}): {res.describe()} {res.errors[:1]}'
         elif any(v is not True for v in res.values):
             err = f'a party program ended early: {res.values}'
+        elif res.errors:
+            err = f'exception inside an MPyC coroutine (reported to the event loop): {res.errors[:1]}'
     if err:
         return Outcome(False, f'{err}\ncase={case}', labels=labels, known=finding)
     return Outcome(True, labels=labels, nontrivial=secret_mut)
@@ -976,7 +978,7 @@ def _draw_other(draw, tt, pal, m, maxlen, forms, near=None):
     if form in ('self', 't'):
         return [form]
     if near is not None and draw(st.integers(0, 3)) > 0:
-        # a list close to `near` (for comparisons): equal / prefix / extension / one item changed
+        # a list close to `near` (for comparisons): equal / one or two items changed / prefix / extension
         vals = list(near)
         step = 1 << tt.f if (tt.kind == 'fxp' and tt.integral) else 1
         c = draw(st.integers(0, 6))
@@ -1158,7 +1160,7 @@ def _case(draw, tier):
                 # let through as the last step, where they are reported as known and cost nothing
                 if (op == 'contains' and occ % tt.p == 0) or \
                         (op in ('index', 'remove') and tt.emb(s.index(v)) == tt.emb(-1)):
-                    if not (last and draw(st.booleans())):
+                    if AVOID_KNOWN and not (last and draw(st.booleans())):
                         excluded += 1
                         op = 'find'
             if op == 'remove' and occ:
